@@ -73,7 +73,9 @@ Theorem C02_a_supported_action_keeps_its_values :
       (forall a c f, In (a, c, f) (te_dec te) ->
          exists x, dec_arg cx c (vint f v) = Ok x /\
                    (enc_arg cx' c x = Ok (vint f v') \/ (c = CRaw /\ vint f v' = vint f v))) /\
-      (forall f, In f action_record_fields -> f <> "_flags" -> expected_src s f = EZero -> vint f v' = 0%N).
+      (forall f, In f action_record_fields -> f <> "_flags" -> expected_src s f = EZero -> vint f v' = 0%N) /\
+      (forall x, In x (te_dec te) <-> In x (se_args s)) /\
+      (exists r', v' = rec_val action_record_fields r').
 Proof. exact action_values_survive. Qed.
 Print Assumptions C02_a_supported_action_keeps_its_values.
 
@@ -90,7 +92,9 @@ Theorem C02_a_supported_condition_keeps_its_values :
       (forall a c f, In (a, c, f) (te_dec te) ->
          exists x, dec_arg cx c (vint f v) = Ok x /\
                    (enc_arg cx' c x = Ok (vint f v') \/ (c = CRaw /\ vint f v' = vint f v))) /\
-      (forall f, In f condition_record_fields -> f <> "_flags" -> expected_src s f = EZero -> vint f v' = 0%N).
+      (forall f, In f condition_record_fields -> f <> "_flags" -> expected_src s f = EZero -> vint f v' = 0%N) /\
+      (forall x, In x (te_dec te) <-> In x (se_args s)) /\
+      (exists r', v' = rec_val condition_record_fields r').
 Proof. exact condition_values_survive. Qed.
 Print Assumptions C02_a_supported_condition_keeps_its_values.
 
